@@ -62,6 +62,17 @@ static void *verif_realloc(void *old, size_t n)
 	__CPROVER_assume(p != NULL);
 	if (old != NULL) {
 		size_t osz = __CPROVER_OBJECT_SIZE(old);
+#ifdef VERIF_REALLOC_PTRWISE
+		/* copy pointer-sized words one by one when both sizes are multiples of the pointer size: a byte-wise
+		 * memcpy turns every pointer of a children[] array into a byte-extract expression and symbolic
+		 * execution can no longer decide "children[i] != NULL" for CONCRETE structures */
+		if (osz % sizeof(void *) == 0 && n % sizeof(void *) == 0) {
+			size_t w_, nw_ = (osz < n ? osz : n) / sizeof(void *);
+			for (w_ = 0; w_ < nw_; w_++) {
+				((void **)p)[w_] = ((void **)old)[w_];
+			}
+		} else
+#endif
 		memcpy(p, old, osz < n ? osz : n);
 		free(old);
 	}
